@@ -25,7 +25,13 @@ import (
 func c11Placeholder(r *fw.Rand) ref.Node {
 	a, b := &ref.DataRef{Name: "a"}, &ref.DataRef{Name: "b"}
 	one, two := &ref.Lit{V: ref.Int(1)}, &ref.Lit{V: ref.Int(2)}
-	switch r.Intn(15) {
+	switch r.Intn(18) {
+	case 15: // ... and so is the same expression under the same directive with other arguments
+		return &ref.Print{E: &ref.DataRef{Name: "s"}, Dirs: []ref.Dir{{Name: "truncate", Args: []ref.Expr{&ref.Lit{V: ref.Int(int64(3 + r.Intn(2)))}}}}}
+	case 16:
+		return &ref.Print{E: &ref.DataRef{Name: "s"}, Dirs: []ref.Dir{{Name: "truncate", Args: []ref.Expr{&ref.Lit{V: ref.Int(2)}, &ref.Lit{V: ref.Bool(false)}}}}}
+	case 17:
+		return &ref.Print{E: &ref.DataRef{Name: "t"}, Dirs: []ref.Dir{{Name: "truncate", Args: []ref.Expr{&ref.Lit{V: ref.Int(int64(1 + r.Intn(3)))}}}, {Name: "id"}}}
 	case 12: // the same expression under different directives is a different placeholder
 		return &ref.Print{E: &ref.DataRef{Name: "s"}, Dirs: []ref.Dir{{Name: "noAutoescape"}}}
 	case 13:
